@@ -212,6 +212,8 @@ Proof.
   - (* reshape *)
     destruct D as (ar & Hlive & Hn). rewrite (slot_of_live _ _ _ Hlive) in Es. injection Es as <-.
     apply asrt_reshape_ok. exact Hn.
+  - (* view = view: equal extensions are part of the documented domain *)
+    destruct D as (_ & _ & _ & Hx). exact Hx.
 Qed.
 
 (* ---------------- histories ---------------- *)
@@ -242,7 +244,7 @@ Qed.
 (* non-vacuity: the re-based reextent of DESIGN 7 item 19 and the zero-inner-extent reextent of item 24, a reshape and an
    assignment from a mutable view of equal element count, all in the documented domain *)
 Example C20_lifecycle_example :
-  let cfg := mkcfg 2 false false false false false SoccSame in
+  let cfg := mkcfg 2 false false false false false false false SoccSame in
   let h := [OCtorFill 0 0 [(1, 3); (2, 3)] 7; OReextent 0 [(2, 4); (2, 3)] (Some 0); OReextent 0 [(0, 4); (0, 0)] (Some 1);
             OCtorFill 1 0 [(0, 2); (0, 3)] 5; OReshape 1 [(0, 3); (0, 2)];
             OCtorFill 2 0 [(0, 6); (0, 1)] 1; OAssignView 2 1 (mkvsrc [(0, 2); (0, 3)] [0; 2; 4; 1; 3; 5]%nat) true] in
